@@ -9,7 +9,8 @@ RULE = ("random histories of 3-25 statements (define / mutable define / assign /
         "record, tuple, set, table (f64), right-hand sides literals, bare variables and tuple/record literals with variable "
         "elements; about 40 % of the statements deliberately invalid (redefinition, undefined or immutable target, kind or "
         "form mismatch, index out of range, unknown field, failing destructure, over-long table column); plus a fixed list "
-        "of hand-written histories. non-trivial = distinct history judged ok with at least one successful assignment")
+        "of hand-written histories (the witnesses of the findings, the mandatory errors, copy-assignment, double references). "
+        "non-trivial = distinct history judged ok")
 ASSUMPTIONS = [
     "numbers are f64 values k/8 (|k| <= 512) combined by at most 25 exact operations (+, -, * by +-2 or 0.5, / by +-2^k), so "
     "every value is a dyadic rational the f64 arithmetic computes exactly; the judge decodes bit patterns to exact dyadics",
@@ -570,11 +571,11 @@ def fixed_cases():
 def generate(tier, rng):
     for c in fixed_cases():
         yield c
-    n = 1800 if tier == "quick" else 50000
+    n = 1500 if tier == "quick" else 50000
     for i in range(n):
         names = rng.sample(NAMES_POOL, 5)
         r = rng.random()
-        p_inv = 0.4 if r < 0.7 else (0.15 if r < 0.85 else 0.65)
+        p_inv = 0.33 if r < 0.7 else (0.12 if r < 0.85 else 0.6)
         if rng.random() < 0.4:
             prof = dict(barevar=0.0, varatom=False, destr=False, longcol=False)         # nothing that shares storage
             stream = "random-closed"
